@@ -35,6 +35,10 @@ applies the patch to /repo, runs the named checks and undoes it).
 Result on the current checks: **{len(caught)} of {len(breaking)}** property-breaking changes are reported
 ({len(caught) - len(nfi)} with a concrete failing input as replay, {len(nfi)} as `no-failing-input-found`), and
 **{len(harmless) - len(alarms)} of {len(harmless)}** harmless changes leave every check that was run quiet.
+The table records the last evaluation of each change. Where a detection depends on a race being hit rather than on a placed
+schedule, it was repeated: the stages that had caught C05r7-2, C12r7-2, C13r7-1 and C13r7-2 once and missed them in the next run
+were rebuilt (slow clock; simultaneous clients hanging up in two batches; eight writers for one slot) until three or four runs in
+a row reported them; C10r6-2 was missed once in a regression run of 41 older changes and reported in the four runs that followed.
 Changes a check missed when it was first run against them, and what was added so that it now reports them:
 
 * C01-2 / C03r2-2 (un-awaited `remove_audit`): C01 gained direct connections re-using the source port of an attributed one.
